@@ -34,14 +34,84 @@ pub enum Op {
     Remove { name: String },
     ContentType { mime: String },
     /// kind: string | bytes | json | form | into_str | into_vec | into_value | reader_none | reader_len |
-    ///       empty | json_bad | form_bad ; `hex` = raw payload for the byte/string kinds
+    ///       empty | json_bad | form_bad | json_typed | form_typed (typed serde structs, field values = the
+    ///       TSpec in `json`); `hex` = raw payload for the byte/string kinds
     Body { kind: String, hex: String, json: Option<Value>, pairs: Option<Vec<(String, String)>> },
-    /// kind: map (BTreeMap<String,String>) | struct ({page,q,tags}) | bad (a bare string: serde_qs refuses)
+    /// kind: map (BTreeMap<String,String>) | struct ({page,q,tags}) | typed (TQuery: renamed / optional /
+    ///       non-alphabetical fields built from these fields) | bad (a bare string: serde_qs refuses)
     Query { kind: String, pairs: Vec<(String, String)>, page: u32, q: String, tags: Vec<String> },
 }
 
 #[derive(Serialize)]
 pub struct QStruct { pub page: u32, pub q: String, pub tags: Vec<String> }
+
+// ---- typed payloads: serde structs whose direct serialisation is NOT what a detour through
+// serde_json::Value / a sorted map would give (field order not alphabetical, renames, f32, u128, Option,
+// nesting).  The documented encoding of body_json / body_form / query is the direct serialisation of the
+// value the app passed.  A typed body op carries its field values as a `TSpec` in the op's `json` slot
+// (integers and strings only, floats as bit patterns, so a replay file reproduces the value exactly).
+#[derive(Serialize, Deserialize, Clone, Debug, Default)]
+pub struct TSpec { pub strs: Vec<String>, pub f32s: Vec<u32>, pub f64s: Vec<u64>, pub us: Vec<u64>, pub is: Vec<Option<i64>>, pub flag: bool }
+impl TSpec {
+    fn s(&self, i: usize) -> String { if self.strs.is_empty() { String::new() } else { self.strs[i % self.strs.len()].clone() } }
+    fn f32(&self, i: usize) -> f32 { let v = if self.f32s.is_empty() { 0 } else { self.f32s[i % self.f32s.len()] }; let f = f32::from_bits(v); if f.is_finite() { f } else { 0.1 } }
+    fn f64(&self, i: usize) -> f64 { let v = if self.f64s.is_empty() { 0 } else { self.f64s[i % self.f64s.len()] }; let f = f64::from_bits(v); if f.is_finite() { f } else { 0.1 } }
+    fn u(&self, i: usize) -> u64 { if self.us.is_empty() { 0 } else { self.us[i % self.us.len()] } }
+    fn i(&self, i: usize) -> Option<i64> { if self.is.is_empty() { None } else { self.is[i % self.is.len()] } }
+}
+#[derive(Serialize, Clone, Debug)]
+pub struct TInner { pub y: f32, #[serde(rename = "x")] pub ex: u64, pub name: String }
+#[derive(Serialize, Clone, Debug)]
+#[serde(rename_all = "camelCase")]
+pub enum TMode { FastPath, Slow(u8), Named { zz: u8, aa: f32 } }
+#[derive(Serialize, Clone, Debug)]
+pub struct TJson {
+    pub zeta: String,
+    #[serde(rename = "Alpha-Key")] pub alpha: f32,
+    pub mid: u64,
+    pub beta: Option<i64>,
+    pub inner: TInner,
+    pub list: Vec<TInner>,
+    pub ratio: f64,
+    pub big: u128,
+    pub flag: bool,
+    pub mode: TMode,
+    pub neg: i64,
+}
+#[derive(Serialize, Clone, Debug)]
+pub struct TForm { pub zed: String, #[serde(rename = "B-b")] pub b: u32, pub opt: Option<String>, pub flag: bool, pub amount: i64, pub aa: String }
+#[derive(Serialize, Clone, Debug)]
+pub struct TQuery { pub zoom: String, #[serde(rename = "Page-No")] pub page: u32, pub after: Option<String>, pub tags: Vec<String>, pub limit: u64 }
+
+pub fn tspec_of(json: &Option<Value>) -> TSpec { json.as_ref().and_then(|v| serde_json::from_value(v.clone()).ok()).unwrap_or_default() }
+pub fn typed_json(t: &TSpec) -> TJson {
+    let inner = |k: usize| TInner { y: t.f32(k), ex: t.u(k + 1), name: t.s(k + 1) };
+    TJson { zeta: t.s(0), alpha: t.f32(0), mid: t.u(0), beta: t.i(0), inner: inner(1), list: (0..(t.u(2) % 4) as usize).map(|k| inner(k + 2)).collect(),
+            ratio: t.f64(0), big: ((t.u(3) as u128) << 40) | t.u(4) as u128, flag: t.flag,
+            mode: match t.u(5) % 3 { 0 => TMode::FastPath, 1 => TMode::Slow(t.u(6) as u8), _ => TMode::Named { zz: t.u(6) as u8, aa: t.f32(3) } },
+            neg: t.i(1).unwrap_or(-1) }
+}
+pub fn typed_form(t: &TSpec) -> TForm {
+    TForm { zed: t.s(0), b: t.u(0) as u32, opt: if t.flag { Some(t.s(1)) } else { None }, flag: t.u(1) % 2 == 0, amount: t.i(0).unwrap_or(i64::MIN), aa: t.s(2) }
+}
+/// the pairs a TForm stands for, in field order (None is skipped), for the independent encoder
+pub fn typed_form_pairs(f: &TForm) -> Vec<(String, String)> {
+    let mut v = vec![("zed".to_string(), f.zed.clone()), ("B-b".to_string(), f.b.to_string())];
+    if let Some(o) = &f.opt { v.push(("opt".into(), o.clone())); }
+    v.push(("flag".into(), f.flag.to_string())); v.push(("amount".into(), f.amount.to_string())); v.push(("aa".into(), f.aa.clone()));
+    v
+}
+pub fn typed_query(pairs: &[(String, String)], page: u32, q: &str, tags: &[String]) -> TQuery {
+    TQuery { zoom: q.to_string(), page, after: pairs.first().map(|p| p.1.clone()), tags: tags.to_vec(), limit: (page as u64) << 31 | 7 }
+}
+pub fn typed_query_encode(t: &TQuery) -> String {
+    let mut o = String::from("zoom="); form_byte(&mut o, &t.zoom);
+    o.push_str(&format!("&Page-No={}", t.page));
+    if let Some(a) = &t.after { o.push_str("&after="); form_byte(&mut o, a); }
+    for (i, x) in t.tags.iter().enumerate() { o.push_str(&format!("&tags[{}]=", i)); form_byte(&mut o, x); }
+    o.push_str(&format!("&limit={}", t.limit));
+    o
+}
 
 pub fn hex(b: &[u8]) -> String { b.iter().map(|x| format!("{:02x}", x)).collect() }
 pub fn unhex(s: &str) -> Vec<u8> { (0..s.len() / 2).map(|i| u8::from_str_radix(&s[2 * i..2 * i + 2], 16).unwrap()).collect() }
@@ -95,6 +165,14 @@ pub fn enc_of(op: &Op) -> Enc {
             "string" | "bytes" | "into_str" | "into_vec" | "reader_none" | "reader_len" => Enc { hex: Some(h.clone()), ..Default::default() },
             "empty" => Enc { hex: Some(String::new()), ..Default::default() },
             "json" | "into_value" => Enc { hex: Some(hex(&serde_json::to_vec(json.as_ref().unwrap_or(&serde_json::Value::Null)).unwrap())), ..Default::default() },
+            // the documented encoding of body_json: the direct serialisation of the typed value
+            "json_typed" => Enc { hex: Some(hex(&serde_json::to_vec(&typed_json(&tspec_of(json))).unwrap())), ..Default::default() },
+            "form_typed" => {
+                let f = typed_form(&tspec_of(json));
+                let mine = form_encode(&typed_form_pairs(&f));
+                let lib = serde_urlencoded::to_string(&f).ok();
+                Enc { oracle_disagree: lib.as_deref() != Some(&mine), hex: Some(hex(mine.as_bytes())) }
+            }
             "form" => {
                 let mine = form_encode(pairs.as_ref().unwrap());
                 let lib = serde_urlencoded::to_string(pairs.as_ref().unwrap()).ok();
@@ -107,6 +185,12 @@ pub fn enc_of(op: &Op) -> Enc {
                 let mine = form_encode(pairs);
                 let m: BTreeMap<String, String> = pairs.iter().cloned().collect();
                 let lib = serde_qs::to_string(&m).ok();
+                Enc { oracle_disagree: lib.as_deref() != Some(&mine), hex: Some(hex(mine.as_bytes())) }
+            }
+            "typed" => {
+                let t = typed_query(pairs, *page, q, tags);
+                let mine = typed_query_encode(&t);
+                let lib = serde_qs::to_string(&t).ok();
                 Enc { oracle_disagree: lib.as_deref() != Some(&mine), hex: Some(hex(mine.as_bytes())) }
             }
             "struct" => {
@@ -163,6 +247,8 @@ macro_rules! apply_builder {
                 "string" => Ok(b.body_string(String::from_utf8($crate::desc::unhex(h)).unwrap())),
                 "bytes" => Ok(b.body_bytes($crate::desc::unhex(h))),
                 "json" => b.body_json(json.as_ref().unwrap_or(&serde_json::Value::Null)).map_err(|e| e.to_string()),
+                "json_typed" => b.body_json(&$crate::desc::typed_json(&$crate::desc::tspec_of(json))).map_err(|e| e.to_string()),
+                "form_typed" => b.body_form(&$crate::desc::typed_form(&$crate::desc::tspec_of(json))).map_err(|e| e.to_string()),
                 "form" => b.body_form(pairs.as_ref().unwrap()).map_err(|e| e.to_string()),
                 "into_str" => Ok(b.body(std::str::from_utf8(&$crate::desc::unhex(h)).unwrap())),
                 "into_vec" => Ok(b.body($crate::desc::unhex(h))),
@@ -176,6 +262,7 @@ macro_rules! apply_builder {
             $crate::desc::Op::Query { kind, pairs, page, q, tags } => match kind.as_str() {
                 "map" => { let m: std::collections::BTreeMap<String, String> = pairs.iter().cloned().collect(); b.query(&m).map_err(|e| e.to_string()) }
                 "struct" => b.query(&$crate::desc::QStruct { page: *page, q: q.clone(), tags: tags.clone() }).map_err(|e| e.to_string()),
+                "typed" => b.query(&$crate::desc::typed_query(pairs, *page, q, tags)).map_err(|e| e.to_string()),
                 _ => b.query(&"bare").map_err(|e| e.to_string()),
             },
             $crate::desc::Op::Append { .. } | $crate::desc::Op::Remove { .. } => panic!("harness: request-stage op in builder stage"),
@@ -203,6 +290,8 @@ pub fn apply_request(r: &mut crux_http::Request, op: &Op) -> Result<(), String> 
             "string" => { r.body_string(String::from_utf8(unhex(h)).unwrap()); Ok(()) }
             "bytes" => { r.body_bytes(unhex(h)); Ok(()) }
             "json" => r.body_json(json.as_ref().unwrap_or(&serde_json::Value::Null)).map_err(|e| e.to_string()),
+            "json_typed" => r.body_json(&typed_json(&tspec_of(json))).map_err(|e| e.to_string()),
+            "form_typed" => r.body_form(&typed_form(&tspec_of(json))).map_err(|e| e.to_string()),
             "form" => r.body_form(pairs.as_ref().unwrap()).map_err(|e| e.to_string()),
             "into_str" => { r.set_body(std::str::from_utf8(&unhex(h)).unwrap()); Ok(()) }
             "into_vec" => { r.set_body(unhex(h)); Ok(()) }
@@ -216,6 +305,7 @@ pub fn apply_request(r: &mut crux_http::Request, op: &Op) -> Result<(), String> 
         Op::Query { kind, pairs, page, q, tags } => match kind.as_str() {
             "map" => { let m: BTreeMap<String, String> = pairs.iter().cloned().collect(); r.set_query(&m).map_err(|e| e.to_string()) }
             "struct" => r.set_query(&QStruct { page: *page, q: q.clone(), tags: tags.clone() }).map_err(|e| e.to_string()),
+            "typed" => r.set_query(&typed_query(pairs, *page, q, tags)).map_err(|e| e.to_string()),
             _ => r.set_query(&"bare").map_err(|e| e.to_string()),
         },
     }
@@ -356,7 +446,7 @@ pub fn expect(d: &Desc, encs: &[Enc], urls: &[(Option<String>, Option<String>)])
             Op::ContentType { .. } => { let m = String::from_utf8(unhex(e.hex.as_ref()?)).unwrap(); set(&mut hs, "content-type".into(), vec![m]) }
             Op::Body { kind, .. } => {
                 body = unhex(e.hex.as_ref()?);
-                let mime = match kind.as_str() { "string" | "into_str" => "text/plain;charset=utf-8", "json" | "into_value" => "application/json", "form" => "application/x-www-form-urlencoded", _ => "application/octet-stream" };
+                let mime = match kind.as_str() { "string" | "into_str" => "text/plain;charset=utf-8", "json" | "into_value" | "json_typed" => "application/json", "form" | "form_typed" => "application/x-www-form-urlencoded", _ => "application/octet-stream" };
                 if !hs.iter().any(|x| x.0 == "content-type") { hs.push(("content-type".into(), vec![mime.into()])) }
             }
             Op::Query { .. } => { q = Some(e.hex.clone()?) }
@@ -430,14 +520,27 @@ pub fn bytes_payload(r: &mut Rng) -> Vec<u8> {
         _ => { let n = r.below(40); (0..n).map(|_| r.next() as u8).collect() }
     }
 }
+pub fn tspec(r: &mut Rng) -> TSpec {
+    const F32: [f32; 8] = [0.1, 1.5, -0.0, 1e-7, 3.4e38, 16777217.0, 0.3, -2.7182817];
+    const F64: [f64; 6] = [0.1, 1e300, -1.0e-5, 123456789.125, 0.30000000000000004, 5e-324];
+    TSpec {
+        strs: (0..r.range(1, 4)).map(|_| uni_text(r, 8)).collect(),
+        f32s: (0..r.range(1, 4)).map(|_| if r.coin(2, 3) { r.pick(&F32).to_bits() } else { (r.next() as u32) & 0x7f7f_ffff }).collect(),
+        f64s: (0..r.range(1, 3)).map(|_| if r.coin(2, 3) { r.pick(&F64).to_bits() } else { r.next() & 0x7fef_ffff_ffff_ffff }).collect(),
+        us: (0..r.range(1, 8)).map(|_| match r.below(4) { 0 => u64::MAX, 1 => r.below(10), 2 => 1 << 53 | 1, _ => r.next() }).collect(),
+        is: (0..r.range(1, 3)).map(|_| match r.below(4) { 0 => None, 1 => Some(i64::MIN), 2 => Some(-(r.below(100) as i64)), _ => Some(r.next() as i64) }).collect(),
+        flag: r.coin(1, 2),
+    }
+}
 pub fn body_op(r: &mut Rng) -> Op {
-    let kind = *r.pick(&["string", "string", "bytes", "bytes", "json", "json", "form", "form", "into_str", "into_vec", "into_value", "reader_none", "reader_len", "empty"]);
+    let kind = *r.pick(&["string", "string", "bytes", "bytes", "json", "json_typed", "json_typed", "form", "form_typed", "into_str", "into_vec", "into_value", "reader_none", "reader_len", "empty"]);
     let mut op = Op::Body { kind: kind.into(), hex: String::new(), json: None, pairs: None };
     if let Op::Body { hex: h, json, pairs: p, .. } = &mut op {
         match kind {
             "string" | "into_str" => *h = hex(if r.coin(1, 30) { "x".repeat(r.range(10_000, 40_000) as usize) } else { uni_text(r, 30) }.as_bytes()),
             "bytes" | "into_vec" | "reader_none" | "reader_len" => *h = hex(&bytes_payload(r)),
             "json" | "into_value" => *json = Some(json_value(r, 3)),
+            "json_typed" | "form_typed" => *json = Some(serde_json::to_value(tspec(r)).unwrap()),
             "form" => *p = Some(pairs(r)),
             _ => {}
         }
@@ -445,6 +548,9 @@ pub fn body_op(r: &mut Rng) -> Op {
     op
 }
 pub fn query_op(r: &mut Rng) -> Op {
+    if r.coin(1, 3) {
+        return Op::Query { kind: "typed".into(), pairs: if r.coin(1, 2) { vec![("after".into(), uni_text(r, 6))] } else { vec![] }, page: r.next() as u32, q: uni_text(r, 10), tags: (0..r.below(3)).map(|_| uni_text(r, 6)).collect() };
+    }
     if r.coin(1, 2) {
         let mut m: BTreeMap<String, String> = BTreeMap::new();
         for (k, v) in pairs(r) { m.insert(k, v); }
